@@ -15,6 +15,11 @@ CONSTANTS
   Menu = {{}, {0}, {0, 1}}
   Moods = {"quiet", "plain", "reorg"}
   MaxReorgs = 2
+  MsgLates = {0}
+  AucLates = {0}
+  SubLates = {0}
+  AttLates = {0}
+  MaxHeld = 1
   Fams = {"att"}
 INVARIANTS NeverTwoRunning
 CHECK_DEADLOCK FALSE
